@@ -162,6 +162,34 @@ def directed_book_ponder(variant):
     return v, eng.transcript()
 
 
+def directed_throttle(variant):
+    """MaxNPS at its declared minimum: the node-rate throttle must not make the engine deaf to stop, isready, a new go or quit.
+    (Before fix F19 the throttle slept totalNodes/MaxNPS seconds in one piece: 51 s after a 51-node quiescence burst.)"""
+    v = []
+    eng = uci.Engine(variant, "material_1")
+    eng.send("uci"); eng.send("setoption name MaxNPS value 1"); eng.send("isready")
+    eng.send("position fen r3k2r/p1ppqpb1/bn2pnp1/3PN3/1p2P3/2N2Q1p/PPPBBPPP/R3K2R w KQkq - 0 1")
+    for release in ("stop", "go"):
+        st = eng.nlines()
+        eng.send("go infinite")
+        time.sleep(2.5)
+        t = time.time()
+        eng.send("stop" if release == "stop" else "go depth 1")
+        eng.send("isready")
+        r = eng.wait_for(lambda l: l.startswith("bestmove"), st, 25)
+        r2 = eng.wait_for(lambda l: l == "readyok", st, 5)
+        if not r or not r2:
+            v.append(("deaf-during-node-rate-throttle", "MaxNPS 1, go infinite, 2.5 s, then '%s' + isready: %s within %.0f s" %
+                      (release, "no bestmove" if not r else "no readyok", time.time() - t)))
+            break
+        if release == "go":
+            eng.send("stop")
+            eng.wait_for(lambda l: l.startswith("bestmove"), r[0] + 1, 25)
+    rc = eng.close("quit", timeout=25)
+    v += [x for x in sessions.judge(eng, rc, "quit") if x[0] not in [y[0] for y in v]]
+    return v, eng.transcript()
+
+
 def run(c):
     quick = c.tier == "quick"
     n_asan = int((160 if quick else 8000) * c.scale)
@@ -199,6 +227,9 @@ def run(c):
         v, tr = directed_multipv(variant)
         for kind, det in v:
             c.violation("option-change-during-search", kind, det, detail=tr)
+        v, tr = directed_throttle(variant)
+        for kind, det in v:
+            c.violation("node-rate-throttle", kind, det, detail=tr)
     # scheduled in-process sessions (delays relative to search progress are literal scheduler steps; hangs are logical verdicts)
     B.build([("rel", "h_cos")])
     core.ensure_nets(["zero_1"])
